@@ -228,53 +228,77 @@ pub fn run_property(p: &dyn Property, cfg: &RunCfg) -> i32 {
   }
   let mut aggs: Vec<Agg> = vec![];
   let mut crashes: Vec<(u64, String)> = vec![];
-  for (k, out, mut child) in children {
-    // Watchdog: a worker whose current run does not change for a long time
-    // is stuck in a *real* wait (a lock the seam does not wrap, held by a
-    // parked simulated thread): that run is reported as a hang.
-    let marker = format!("{}.current", out);
-    let mut last_seen = std::fs::read_to_string(&marker).unwrap_or_default();
-    let mut last_change = Instant::now();
-    let mut hung = false;
-    let status = loop {
-      match child.try_wait().expect("wait for worker") {
-        Some(st) => break st,
+  // Wait for all workers at once. Watchdog: a worker whose current run does
+  // not change for a long time is stuck in a *real* wait (a lock the seam does
+  // not wrap, held by a parked simulated thread): that run is reported as a hang.
+  struct Live {
+    k: usize,
+    out: String,
+    child: std::process::Child,
+    last_seen: String,
+    last_change: Instant,
+  }
+  let mut live: Vec<Live> = children
+    .into_iter()
+    .map(|(k, out, child)| Live {
+      k,
+      out,
+      child,
+      last_seen: String::new(),
+      last_change: Instant::now(),
+    })
+    .collect();
+  while !live.is_empty() {
+    std::thread::sleep(std::time::Duration::from_millis(50));
+    let mut idx = 0;
+    while idx < live.len() {
+      let l = &mut live[idx];
+      let marker = format!("{}.current", l.out);
+      let mut finished: Option<(std::process::ExitStatus, bool)> = None;
+      match l.child.try_wait().expect("wait for worker") {
+        Some(st) => finished = Some((st, false)),
         None => {
-          std::thread::sleep(std::time::Duration::from_millis(100));
           let now = std::fs::read_to_string(&marker).unwrap_or_default();
-          if now != last_seen {
-            last_seen = now;
-            last_change = Instant::now();
-          } else if last_change.elapsed().as_secs() > 180 {
-            let _ = child.kill();
-            hung = true;
+          if now != l.last_seen {
+            l.last_seen = now;
+            l.last_change = Instant::now();
+          } else if l.last_change.elapsed().as_secs() > 120 {
+            let _ = l.child.kill();
+            let st = l.child.wait().expect("wait for killed worker");
+            finished = Some((st, true));
           }
         }
       }
-    };
-    if hung {
-      match last_seen.trim().parse::<u64>() {
-        Ok(i) => {
-          crashes.push((i, format!("worker {} made no progress for 180 s while executing run {} (a real, unsimulated wait: hang)", k, i)));
+      if let Some((status, hung)) = finished {
+        let l = live.remove(idx);
+        if hung {
+          match l.last_seen.trim().parse::<u64>() {
+            Ok(i) => crashes.push((
+              i,
+              format!("worker {} made no progress for 120 s while executing run {} (a real, unsimulated wait: hang)", l.k, i),
+            )),
+            Err(_) => {
+              eprintln!("HARNESS-ERROR: worker {} hung and left no marker", l.k);
+              std::process::exit(2);
+            }
+          }
           continue;
         }
-        Err(_) => {
-          eprintln!("HARNESS-ERROR: worker {} hung and left no marker", k);
-          std::process::exit(2);
-        }
-      }
-    }
-    match std::fs::read(&out).ok().and_then(|b| serde_json::from_slice::<Agg>(&b).ok()) {
-      Some(a) if status.success() => aggs.push(a),
-      _ => {
-        let at = std::fs::read_to_string(format!("{}.current", out)).unwrap_or_default();
-        match at.trim().parse::<u64>() {
-          Ok(i) => crashes.push((i, format!("worker {} died ({}) while executing run {}", k, status, i))),
-          Err(_) => {
-            eprintln!("HARNESS-ERROR: worker {} failed ({}) and left no marker", k, status);
-            std::process::exit(2);
+        match std::fs::read(&l.out).ok().and_then(|b| serde_json::from_slice::<Agg>(&b).ok()) {
+          Some(a) if status.success() => aggs.push(a),
+          _ => {
+            let at = std::fs::read_to_string(&marker).unwrap_or_default();
+            match at.trim().parse::<u64>() {
+              Ok(i) => crashes.push((i, format!("worker {} died ({}) while executing run {}", l.k, status, i))),
+              Err(_) => {
+                eprintln!("HARNESS-ERROR: worker {} failed ({}) and left no marker", l.k, status);
+                std::process::exit(2);
+              }
+            }
           }
         }
+      } else {
+        idx += 1;
       }
     }
   }
